@@ -6,10 +6,12 @@
    EVERY program of the calculus and every pick sequence, hence for the executor written in it
    (a_execute_operation), which the check runs against the real engine under enumerated schedules.
    PARTIAL (runtime, outside the model): asyncio's task wake-up order beyond FIFO start, gather
-   internals, cancellation, timeouts, thread-pool resolvers.  PARTIAL (not proved, decided per
-   run by the check): identical data across the 2x2x2 concurrency configurations. *)
+   internals, cancellation, timeouts, thread-pool resolvers.  Identical data across the sibling
+   strategies is C08_config_data_eq (from the C01 refinement); PARTIAL (decided per run): the list and
+   argument-coercion options, which the state-passing model does not distinguish. *)
 From Coq Require Import ZArith List String Bool Permutation.
-From TV Require Import Py.Prelude Model.Schema Model.ImplInput Model.ImplExec Model.Async Proofs.AsyncProofs.
+From TV Require Import Py.Prelude Model.Schema Model.ImplInput Model.ImplExec Model.SpecExec Model.Async Proofs.AsyncProofs
+     Proofs.ExecRefine.
 Import ListNotations.
 Open Scope list_scope.
 
@@ -75,6 +77,20 @@ Proof.
   split; [exact Hr|]. split; apply flat_map_perm'; exact Hp.
 Qed.
 
+(* whichever sibling strategy is configured (fields of one object coerced concurrently or one after
+   the other), the data is the same: both are the specification's (C01_data_refines_spec) *)
+Theorem C08_config_data_eq sch doc vs U cfg1 cfg2 op root d o :
+  spec_execute_operation sch doc vs U op root = Some (d, o) ->
+  exists r1 r2, execute_operation sch doc vs U cfg1 op root = OVal r1 /\
+                execute_operation sch doc vs U cfg2 op root = OVal r2 /\ r_data r1 = r_data r2.
+Proof.
+  intros H.
+  destruct (execute_operation_refines_spec sch doc vs U cfg1 op root d o H) as (r1 & E1 & D1).
+  destruct (execute_operation_refines_spec sch doc vs U cfg2 op root d o H) as (r2 & E2 & D2).
+  exists r1, r2. repeat split; congruence.
+Qed.
+
+Print Assumptions C08_config_data_eq.
 Print Assumptions C08_schedule_independence.
 Print Assumptions C08_any_two_schedules_agree.
 Print Assumptions C08_every_started_finishes.
